@@ -277,7 +277,7 @@ pub fn test(c: &Case, obs: &mut Obs, which: Which, cap: usize, no_reorder_pagefi
                 };
                 let db = db.unwrap();
                 judge(which, &out, acked, started, &t.states, &ctxmsg, phase, &db)?;
-                if which == Which::Prefix {
+                {
                     if let Some(j) = out.matched {
                         index_queries_agree(&db, &t.states[j], &c.ops, obs).map_err(|f| Failure::new(format!("{}:{phase}", f.signature), format!("{ctxmsg}: {}", f.message)))?;
                     }
@@ -358,7 +358,7 @@ pub fn run_which(ctx: &mut RunCtx, which: Which) {
         Which::Acked => "one traced run per generated history (transactions, compaction, checkpoint, close+reopen, index creation), then every selected I/O step is a crash point under process death (plus torn prefixes of the write) and power loss; the reopened image must equal a commit-ordered model state containing every acknowledged commit; a quarter of the points continue with new transactions and another reopen; non-trivial evaluation = crash strictly inside an operation (or power loss) after >=1 acknowledged commit",
         Which::Prefix => "same trace and crash images as C01; the reopened image must open and equal one of the commit-ordered model states 0..started (no partial transaction, no gap); non-trivial evaluation = crash strictly inside an operation, a torn write, or power loss",
     };
-    if which == Which::Prefix {
+    {
         // histories built around one index: indexed values are inserted, updated, removed and
         // their nodes deleted, so that index pages change inside the crashing operations
         let icases = ctx.tier.pick(64, 1200);
@@ -393,6 +393,62 @@ pub fn run_which(ctx: &mut RunCtx, which: Which) {
                     }
                     Case { ops, after, force: false }
                 })
+            },
+            |c: &Case, obs: &mut Obs| test(c, obs, which, cap, no_reorder),
+        );
+    }
+    {
+        // histories built around two compactions: data is written and compacted, then exactly
+        // that data is overwritten / removed / deleted and compacted again, so the second
+        // compaction rewrites the property store, drops tombstones and replaces the segment
+        let ccases = ctx.tier.pick(48, 900);
+        ctx.explore(
+            "compaction-crash-points",
+            "constructed histories: nodes, relationships and properties are created and compacted; a second round overwrites and removes those properties, deletes relationships and nodes, changes labels; a second (and sometimes third) compaction follows, optionally a close+reopen; same crash images (every I/O step, process death / torn log writes / power loss) and oracles as the main section; non-trivial as in the main section",
+            ccases,
+            || {
+                use crate::hist::W;
+                use crate::pv::PV;
+                let val = prop_oneof![(0i64..4).prop_map(PV::Int), prop::sample::select(vec!["x", "yy"]).prop_map(|s| PV::Str(s.to_string())), Just(PV::Null)];
+                let build = prop::collection::vec(
+                    prop_oneof![
+                        3 => (prop::collection::vec(0u8..3, 0..3), 0u8..3, val.clone()).prop_map(|(labels, k, v)| vec![W::CreateNode { labels }, W::SetNodeProp { n: u16::MAX, k, v }]),
+                        2 => (any::<u16>(), 0u8..3, any::<u16>(), 0u8..3, val.clone()).prop_map(|(s, t, d, k, v)| vec![W::CreateEdge { s, t, d }, W::SetEdgeProp { e: u16::MAX, k, v }]),
+                    ],
+                    2..6,
+                )
+                .prop_map(|v| Op::Tx { ws: v.concat(), commit: true });
+                let change = prop::collection::vec(
+                    prop_oneof![
+                        3 => (any::<u16>(), 0u8..3, val.clone()).prop_map(|(n, k, v)| W::SetNodeProp { n, k, v }),
+                        3 => (any::<u16>(), 0u8..3).prop_map(|(n, k)| W::RemoveNodeProp { n, k }),
+                        2 => (any::<u16>(), 0u8..3).prop_map(|(e, k)| W::RemoveEdgeProp { e, k }),
+                        2 => (any::<u16>(), 0u8..3, val).prop_map(|(e, k, v)| W::SetEdgeProp { e, k, v }),
+                        2 => any::<u16>().prop_map(|e| W::DeleteEdge { e }),
+                        1 => any::<u16>().prop_map(|n| W::DeleteNode { n }),
+                        1 => any::<u16>().prop_map(|n| W::TombstoneNodeOnly { n }),
+                        1 => (any::<u16>(), 0u8..3).prop_map(|(n, l)| W::AddLabel { n, l }),
+                        1 => (any::<u16>(), 0u8..3).prop_map(|(n, l)| W::RemoveLabel { n, l }),
+                    ],
+                    1..5,
+                )
+                .prop_map(|ws| Op::Tx { ws, commit: true });
+                (build.clone(), prop::option::of(build), change.clone(), prop::option::of(change), any::<bool>(), prop::option::of(prop_oneof![Just(Op::CloseReopen), Just(Op::DropReopen)]))
+                    .prop_map(|(b1, b2, c1, c2, third, reopen)| {
+                        let mut ops = vec![b1];
+                        ops.extend(b2);
+                        ops.push(Op::Compact);
+                        ops.push(c1);
+                        ops.push(Op::Compact);
+                        if let Some(c2) = c2 {
+                            ops.push(c2);
+                            if third {
+                                ops.push(Op::Compact);
+                            }
+                        }
+                        ops.extend(reopen);
+                        Case { ops, after: vec![], force: false }
+                    })
             },
             |c: &Case, obs: &mut Obs| test(c, obs, which, cap, no_reorder),
         );
